@@ -24,7 +24,8 @@ pub enum Sh {
     Sphere { c: Option<[i16; 3]>, r: Option<i16>, positional: bool, swap: bool, vf: VForm, promote: bool },
     Rectangle { lo: [i16; 2], hi: [i16; 2], map: bool, vf: VForm },
     Box3 { lo: [i16; 3], hi: [i16; 3], map: bool, vf: VForm },
-    /// form: 0 map, 1 tree + map, 2 chained method + map, 3 positional (tree, vec), 4 positional (vec, tree), 5 positional with vec2 promotion
+    /// form: 0 map, 1 tree + map, 2 chained method + map, 3 positional (tree, vec), 4 positional (vec, tree),
+    /// 5 positional with vec2 promotion, 6 / 7 / 8 = forms 0 / 1 / 2 with vec2 promotion
     Move { t: Box<E>, o: [i16; 3], form: u8, vf: VForm },
     Scale { t: Box<E>, s: [i16; 3], form: u8, vf: VForm },
     ScaleUniform { t: Box<E>, s: i16, form: u8 },
@@ -283,7 +284,7 @@ impl Sh {
             }
             Sh::Move { t, o, form, vf } => {
                 let (st, tt) = t.render();
-                let promote = *form % 6 == 5;
+                let promote = *form % 9 >= 5;
                 let offset = if promote {
                     Vec3::new(num(o[0]), num(o[1]), 0.0)
                 } else {
@@ -291,11 +292,11 @@ impl Sh {
                 };
                 let os = if promote { vlit(&o[..2], *vf) } else { vlit(o, *vf) };
                 let tree: Tree = fs::Move { shape: tt, offset }.into();
-                (transform_call("move", &st, t, &[("offset", os)], *form), tree)
+                (transform_call("move", &st, t, &[("offset", os)], promoted_form(*form)), tree)
             }
             Sh::Scale { t, s, form, vf } => {
                 let (st, tt) = t.render();
-                let promote = *form % 6 == 5;
+                let promote = *form % 9 >= 5;
                 let scale = if promote {
                     Vec3::new(num(s[0]), num(s[1]), 1.0)
                 } else {
@@ -303,7 +304,7 @@ impl Sh {
                 };
                 let ss = if promote { vlit(&s[..2], *vf) } else { vlit(s, *vf) };
                 let tree: Tree = fs::Scale { shape: tt, scale }.into();
-                (transform_call("scale", &st, t, &[("scale", ss)], *form), tree)
+                (transform_call("scale", &st, t, &[("scale", ss)], promoted_form(*form)), tree)
             }
             Sh::ScaleUniform { t, s, form } => {
                 let (st, tt) = t.render();
@@ -489,6 +490,17 @@ impl Sh {
     }
 }
 
+/// Move / Scale forms 0-4 as in `transform_call`; 5-8 pass a vec2 where a vec3 is
+/// expected, in the positional, map, tree + map and chained + map forms
+fn promoted_form(form: u8) -> u8 {
+    match form % 9 {
+        6 => 0,
+        7 => 1,
+        8 => 2,
+        f => f,
+    }
+}
+
 /// The call forms of a one-tree transform with a single extra field
 fn transform_call(name: &str, st: &str, t: &E, fields: &[(&str, String)], form: u8) -> String {
     let (k, v) = (&fields[0].0, &fields[0].1);
@@ -546,11 +558,11 @@ fn expr(depth: u32) -> BoxedStrategy<E> {
             (prop::option::of([k8(), k8()]), prop::option::of(pos8()), any::<bool>(), any::<bool>(), vf())
                 .prop_map(|(c, r, positional, swap, vf)| Sh::Circle { c, r, positional, swap, vf }),
             (prop::option::of([k8(), k8(), k8()]), prop::option::of(pos8()), any::<bool>(), any::<bool>(), vf(), any::<bool>())
-                .prop_map(|(c, r, positional, swap, vf, promote)| Sh::Sphere { c, r, positional, swap, vf, promote: promote && positional }),
+                .prop_map(|(c, r, positional, swap, vf, promote)| Sh::Sphere { c, r, positional, swap, vf, promote }),
             ([k8(), k8()], [k8(), k8()], any::<bool>(), vf()).prop_map(|(lo, hi, map, vf)| Sh::Rectangle { lo, hi, map, vf }),
             ([k8(), k8(), k8()], [k8(), k8(), k8()], any::<bool>(), vf()).prop_map(|(lo, hi, map, vf)| Sh::Box3 { lo, hi, map, vf }),
-            (b(t.clone()), [k8(), k8(), k8()], 0u8..6, vf()).prop_map(|(t, o, form, vf)| Sh::Move { t, o, form, vf }),
-            (b(t.clone()), [pos8(), pos8(), pos8()], 0u8..6, vf()).prop_map(|(t, s, form, vf)| Sh::Scale { t, s, form, vf }),
+            (b(t.clone()), [k8(), k8(), k8()], 0u8..9, vf()).prop_map(|(t, o, form, vf)| Sh::Move { t, o, form, vf }),
+            (b(t.clone()), [pos8(), pos8(), pos8()], 0u8..9, vf()).prop_map(|(t, s, form, vf)| Sh::Scale { t, s, form, vf }),
             (b(t.clone()), pos8(), 0u8..5).prop_map(|(t, s, form)| Sh::ScaleUniform { t, s, form }),
             (b(t.clone()), k8(), 0u8..5).prop_map(|(t, o, form)| Sh::ReflectX { t, o, form }),
             (b(t.clone()), prop::option::of(k8()), prop::option::of([k8(), k8(), k8()]), 0u8..2, 0u8..6, vf())
